@@ -1,6 +1,7 @@
 (* Helpers shared by the *Run.v files, which evaluate the executable model on
    the histories the harness ran against the implementation. *)
 From Coq Require Import ZArith List Bool String Ascii.
+From Coq Require Export Uint63.
 Import ListNotations.
 
 Definition opt_eqb {A} (eqb : A -> A -> bool) (a b : option A) : bool :=
@@ -44,3 +45,21 @@ Fixpoint hx_aux (s : string) : list Byte.byte :=
   | _ => []
   end.
 Definition hx (s : string) : list Byte.byte := hx_aux s.
+
+(* ---- fast byte literals --------------------------------------------------
+   String and Z literals cost ~10 ms per 80 bytes to parse; primitive 63-bit
+   integers are ~20x cheaper.  [hb last chunks]: every chunk holds 7 bytes
+   big-endian, the final one holds [last] (1..7) bytes. *)
+Definition byte_of_int (x : int) : Byte.byte :=
+  match Byte.of_N (Z.to_N (Uint63.to_Z (Uint63.land x 255))) with Some b => b | None => Byte.x00 end.
+Fixpoint chunk_bytes (k : nat) (c : int) (acc : list Byte.byte) : list Byte.byte :=
+  match k with
+  | O => acc
+  | S k' => chunk_bytes k' (Uint63.lsr c 8) (byte_of_int c :: acc)
+  end.
+Fixpoint hb (last : nat) (cs : list int) : list Byte.byte :=
+  match cs with
+  | [] => []
+  | [c] => chunk_bytes last c []
+  | c :: cs' => chunk_bytes 7 c (hb last cs')
+  end.
